@@ -84,6 +84,8 @@ func runProc(c Case) (lit string, obs Obs, nontrivial bool) {
 			return true, nil
 		case 2:
 			return false, nil
+		case 4:
+			return true, errPred // an error is an error whatever the boolean says
 		}
 		return false, errPred
 	}
@@ -307,10 +309,10 @@ func genProc(em *emitter, r *hc.Rand, n, depth int, unencPermille int) {
 			c.Node = "formatter"
 		case x < 8:
 			c.Node = "jff"
-			c.Pred = r.Intn(4)
+			c.Pred = r.Intn(5)
 		default:
 			c.Node = "filter"
-			c.Pred = 1 + r.Intn(3)
+			c.Pred = 1 + r.Intn(4)
 		}
 		c.Type = hex.EncodeToString(g.String(5))
 		c.Time = jgen.GenTime(r)
@@ -327,7 +329,7 @@ func genGrid(em *emitter) {
 		{K: "unenc", V: "nan"}, {K: "unenc", V: "chan"}, {K: "nil"}, {K: "str", V: hex.EncodeToString([]byte("x\n<\"\xff"))},
 	}
 	for _, node := range []string{"formatter", "jff", "filter"} {
-		for pred := 0; pred < 4; pred++ {
+		for pred := 0; pred < 5; pred++ {
 			if node == "formatter" && pred != 0 || node == "filter" && pred == 0 {
 				continue
 			}
